@@ -273,7 +273,7 @@ def native_stress(run, case, rounds=25):
             for n in ([R.HELPER] if need_helper else []) + nicks:
                 if not reg(n): return None, f'registration of {n} failed'
             for n, line in setup:
-                clients[n].send(line); clients[n].barrier()
+                clients[n].send(line.lstrip('?')); clients[n].barrier()
             for n in nicks: clients[n].barrier()
             acts = []
             for a in case['actors']:
@@ -330,8 +330,13 @@ def confirm(run, cands):
     for f in sorted(cands, key=lambda f: (0 if 'password' in f['witness'].get('case', '') else 1, f['site'] == 'not-serializable')):
         fi = Finding(PROP, f['kind'], f['site'], f['what'], f['witness'], role=dict(predicate=f.get('predicate', '')))
         case = run.cases_by_name.get(f['witness'].get('case'))
-        if case is not None and case.get('extra') and f['site'] != 'not-serializable' and case['name'] not in done:
-            done.add(case['name'])
+        import re as _re
+        base = _re.sub(r' [{<\[][01,]+[}>\]]$', '', case['name']) if case is not None else None      # sub-cases of one scenario (split suffix) share one native confirmation
+        if case is not None and base in done and f['site'] != 'not-serializable' and case.get('extra'):
+            fi.confirmed = 'skipped'; fi.native = 'same scenario as an already confirmed counterexample (another part of the split schedule space)'
+            run.add_finding(fi); continue
+        if case is not None and case.get('extra') and f['site'] != 'not-serializable' and base not in done:
+            done.add(base)
             try:
                 okk, text = native_stress(run, case)
             except Exception as e:
